@@ -10,7 +10,7 @@ for sid, v in list(det.items()):
 for f in sys.argv[1:]:
     label = os.path.basename(f)
     for line in open(f):
-        m = re.match(r'(C\d\d_\d)\s+(.*)', line.strip())
+        m = re.match(r'(C\d\d_\d+)\s+(.*)', line.strip())
         if not m: continue
         sid, rest = m.groups()
         if 'VIOLATION' in rest:
